@@ -3,6 +3,8 @@ package vrt
 import (
 	"reflect"
 	"unsafe"
+
+	"verif/vrace"
 )
 
 // Channels are emulated in a side table keyed by channel identity.  The real
@@ -14,6 +16,17 @@ type chanState struct {
 	cap    int
 	buf    []any
 	closed bool
+	tok    [2]uint64 // race detector token: every completed operation on the channel acquires and releases it
+}
+
+// raceSync orders the calling thread after every earlier completed operation on the channel and before every later
+// one (an over-approximation of the channel rules of the memory model: it can hide a race between two senders, it
+// never invents one).
+func (cs *chanState) raceSync() {
+	if vrace.Enabled && cs != nil {
+		vrace.Acquire(unsafe.Pointer(&cs.tok))
+		vrace.ReleaseMerge(unsafe.Pointer(&cs.tok))
+	}
 }
 
 // SelCase is one case of a select.
@@ -45,12 +58,20 @@ func (e *Exec) chanOf(ptr uintptr, capacity int) *chanState {
 	if ptr == 0 {
 		return nil
 	}
-	cs := e.chans[ptr]
-	if cs == nil {
-		cs = &chanState{id: NewObj(), cap: capacity}
-		e.chans[ptr] = cs
+	if i, ok := e.chans.Get(uint64(ptr)); ok {
+		return e.chanList[i]
 	}
+	cs := &chanState{id: NewObj(), cap: capacity}
+	e.chans.Put(uint64(ptr), uint64(len(e.chanList)))
+	e.chanList = append(e.chanList, cs)
 	return cs
+}
+
+func (e *Exec) chanLookup(ptr uintptr) *chanState {
+	if i, ok := e.chans.Get(uint64(ptr)); ok {
+		return e.chanList[i]
+	}
+	return nil
 }
 
 // RecvCase builds a receive case.
@@ -131,6 +152,7 @@ func Close[T any](ch chan T) {
 		panic("close of closed channel")
 	}
 	cs.closed = true
+	cs.raceSync()
 	Touch(cs.id, true, 0xc105e)
 	// blocked senders panic when they run; receivers become enabled by themselves
 	func() {
@@ -149,7 +171,7 @@ func IsClosed[T any](ch <-chan T) bool {
 			return false
 		}
 	}
-	cs := E.chans[chanPtr(ch)]
+	cs := E.chanLookup(chanPtr(ch))
 	return cs != nil && cs.closed
 }
 
@@ -282,6 +304,9 @@ func doSelect(hasDefault bool, cases []SelCase) SelResult {
 	t.cases = cases
 	t.matched = false
 	t.waiting = true
+	for i := range cases {
+		cases[i].ch.raceSync()
+	}
 	defer func() { t.cases = nil; t.matched = false; t.waiting = false }()
 	for {
 		Point(kind+".wait", obj, func() bool {
@@ -298,6 +323,7 @@ func doSelect(hasDefault bool, cases []SelCase) SelResult {
 		if t.matched {
 			r := SelResult{I: t.selIdx, V: t.selVal, OK: t.selOK}
 			Touch(cases[t.selIdx].ch.id, true, 0x3a7c)
+			cases[t.selIdx].ch.raceSync()
 			return r
 		}
 		if r, ok := e.tryCases(t, cases); ok {
@@ -324,6 +350,7 @@ func (e *Exec) tryCases(t *Thread, cases []SelCase) (SelResult, bool) {
 	c := &cases[pick]
 	cs := c.ch
 	Touch(cs.id, true, uint64(pick)+0x5e1)
+	cs.raceSync()
 	if c.Send {
 		if cs.closed {
 			t.cases = nil
@@ -360,7 +387,7 @@ func ChanLen[T any](ch <-chan T) int {
 	if E == nil {
 		return len(ch)
 	}
-	cs := E.chans[chanPtr(ch)]
+	cs := E.chanLookup(chanPtr(ch))
 	if cs == nil {
 		return 0
 	}
